@@ -407,6 +407,7 @@ func (l *log) delete(offsets map[int64]struct{}) ([]Message, int64, error) {
 
 	wasWriter := false
 	var writerVersion message.Version
+	var writerSize int64 = -1
 	l.writerMu.Lock()
 	if l.writer.reader == rdr {
 		wasWriter = true
@@ -415,6 +416,8 @@ func (l *log) delete(offsets map[int64]struct{}) ([]Message, int64, error) {
 			l.writerMu.Unlock()
 			return nil, 0, err
 		}
+		// publishes go on while the head is rewritten: only what is written by now is read
+		writerSize = l.writer.messages.Size()
 	} else if rdr.head {
 		// the head segment rolled over since it was chosen and its reader
 		// was replaced: choose again
@@ -446,7 +449,7 @@ func (l *log) delete(offsets map[int64]struct{}) ([]Message, int64, error) {
 			mversion, iversion = message.V2, index.V2
 		}
 	}
-	rs, err := rdr.segment.Rewrite(offsets, l.params, mversion, iversion)
+	rs, err := rdr.segment.RewriteUpTo(writerSize, offsets, l.params, mversion, iversion)
 	if err != nil {
 		return nil, 0, err
 	}
